@@ -8,6 +8,6 @@ echo "== (2) demo with patch (expect FAIL)"; cargo test --offline --test $DEMO 2
 mv tests/$DEMO.rs /tmp/$DEMO.rs.aside
 echo "== (1) suite with patch (expect ok)"; cargo test --workspace --no-fail-fast --offline 2>&1 | grep -E "^test result|FAILED|tests passed|failed" | head -8
 mv /tmp/$DEMO.rs.aside tests/$DEMO.rs
-git stash push -q -- src
+git checkout -q -- src
 echo "== (3) demo without patch (expect ok)"; cargo test --offline --test $DEMO 2>&1 | grep -E "^test result|panicked" | head -3
-git stash pop -q
+git apply /tmp/vm_$DEMO.diff
